@@ -88,7 +88,7 @@ public:
     {
         if constexpr (rank_dynamic() > 0) {
             for (rank_type i{0}; i < rank(); ++i) {
-                if (e.static_extent(i) == dynamic_extent) {
+                if (static_extent(i) == dynamic_extent) {
                     _extents[_dynamic_index(i)] = static_cast<IndexType>(e.extent(i));
                 }
             }
